@@ -470,6 +470,9 @@ structure LUState (D R : Type) where
 inductive LUOp (D : Type) where
   | decomp (useCache : Bool) (fault : Bool)   -- ctx.LU_decomp(A, use_cache=…)
   | setItem (d : D)                           -- A[i,j] = x      (new contents d): clears _LU
+  | setSlice (d : D)                          -- A[i,:] = M, A[:,j] = x, A[a:b,c:d] = M  (slice branch of __setitem__, which
+                                              -- stores through __set_element; the reset at the end of __setitem__ runs for
+                                              -- both branches, matrices.py:566-567): clears _LU
   | resize (d : D)                            -- A.rows = k / A.cols = k  (new contents d): does NOT clear _LU
   | setPrec (p : Nat)                         -- ctx.prec = p: does not touch A
 
@@ -486,6 +489,7 @@ def luStep {D R : Type} (LU : D → Nat → Option R) (s : LUState D R) :
         | none => (s, some .raised)
         | some r => ({ s with lu := some r }, some (.ok (.computed, r)))
   | .setItem d => ({ s with data := d, lu := none }, none)
+  | .setSlice d => ({ s with data := d, lu := none }, none)
   | .resize d => ({ s with data := d }, none)
   | .setPrec p => ({ s with prec := p }, none)
 
